@@ -6,6 +6,11 @@ ROOT = os.path.dirname(os.path.dirname(os.path.abspath(__file__)))
 sys.path.insert(0, os.path.join(ROOT, "tools"))
 import core
 EXTRA = {"C05_B": "C08", "C15_A": "C03", "C15_B": "C05,C17", "C16_B": "C01", "C17_A": "C05,C09", "C05_A": "C15,C17", "C12_A": "C16", "C06_B": "C05"}
+SHARD, NSHARD = (int(sys.argv[1]), int(sys.argv[2])) if len(sys.argv) > 2 else (0, 1)
+os.environ["SEEDCONFIRM_TARGET"] = "/tmp/seedconfirm_target_%d" % SHARD
+def mine(name):
+    import zlib
+    return zlib.crc32(name.encode()) % NSHARD == SHARD
 def ready(pid):
     try:
         return bool(getattr(core.load_plugin(pid), "READY", False))
@@ -17,6 +22,7 @@ for d in sorted(glob.glob("/tmp/seed_C*_out/*")):
     name = "%s_%s" % (pid, v)
     if pid == "C09": name += "2"
     dst = os.path.join(ROOT, "seeded", name)
+    if not mine(name): continue
     if not os.path.exists(os.path.join(dst, "meta.json")) and not os.path.exists(os.path.join(d, ".rejected")):
         r = subprocess.run([sys.executable, os.path.join(ROOT, "tools", "seedconfirm.py"), d, "seeded/" + name], capture_output=True, text=True)
         ok = '"confirmed": true' in r.stdout
@@ -25,6 +31,7 @@ for d in sorted(glob.glob("/tmp/seed_C*_out/*")):
             open(os.path.join(d, ".rejected"), "w").write(r.stdout[-3000:])
 for dst in sorted(glob.glob(os.path.join(ROOT, "seeded", "*"))):
     name = os.path.basename(dst)
+    if not mine(name): continue
     if not os.path.exists(os.path.join(dst, "meta.json")) or os.path.exists(os.path.join(dst, "result.json")): continue
     pid = json.load(open(os.path.join(dst, "meta.json")))["property"]
     if not ready(pid): continue
